@@ -11,6 +11,20 @@ TB = ("Trusted: Lean 4.33 kernel; axioms of every property theorem printed per r
       "lxml/libxml2 and CPython are modelled, not verified. ")
 
 CLAIMED = {
+    "C07": dict(
+        text="Proof: the four-rule table of _reduce_whitespace_content and the traversal of "
+             "_reduce_whitespace_of_descendants are modelled in Lean (Model/Whitespace.lean) next to a declarative "
+             "specification of the TEI normal form; proved for every string/tree: implementation model = specification, "
+             "idempotence on parser-shaped trees, skeleton and non-whitespace characters preserved, preserve-subtrees "
+             "untouched, merge yields parser-shaped trees; generated-table obligation that regex \\s, str.strip and "
+             "str.isspace agree. Tie to code: reduce_whitespace(), ParserOptions(reduce_whitespace=True) and TagNode.parse on "
+             "generated and exhaustively enumerated documents vs the compiled Lean model (exact trees), plus an independent "
+             "Python statement of the normal form evaluated on the implementation.",
+        note=TB + "Whitespace is the set Python's \\s/strip/isspace agree on (generated table). Empty text nodes inside chains "
+             "are kept out of the stream (C01 finding territory).",
+        technique="Lean 4 theorems (induction over strings and nested trees) + differential correspondence impl vs Lean model",
+        design="3/C07",
+    ),
     "C19": dict(
         text="Proof: `_wrap_text` is modelled in Lean (Model/Wrap.lean) and proved equal to greedy fill over the word "
              "list for every width>=1 and every word sequence, with partition/width/greediness/indentation corollaries "
